@@ -1,6 +1,7 @@
 import ErrModel.Recipe
 import ErrModel.Migrations
 import ErrModel.Accessors
+import ErrModel.Shape
 /-
   Observation streams printed by the driver (and, identically, by the harness
   from the real code).
@@ -77,6 +78,9 @@ def pAcc (e : Err) : String :=
     pList ["os", pBool (osIs Full 0 (sentinelErr 0) e), pBool (osIs Full 1 (sentinelErr 1) e),
       pBool (osIs Full 2 (sentinelErr 2) e), pBool (isTimeout e)],
     pList ["root", pStr (text (unwrapAll e)), pStr (unwrapAll e).ty.tstr],
+    pList ["stacks", pList ((chain e).map (fun n => match layerStackStr Full n with
+      | some s => pList ["some", pStr s]
+      | none => "(none)"))],
     pList ["safedet", pList ((getAllSafeDetails Full vfStub e).map (fun x =>
       pList [pStr x.1, pTMark x.2.1, pStrs x.2.2]))]]
 
